@@ -147,13 +147,31 @@ func init() {
 	}, trivial: func(c Case) bool { return c.A["n"] == "0" || c.A["n"] == "1" }}
 
 	campaigns["C19"] = campaign{
-		rule: "cases: (n, source byte stream) for the bounded draw and the shuffle (hooks VerifCsprngUint32n / VerifCsprngShuffle); boundary source values are constructed so that low = v*n mod 2^32 falls on thresh-1, thresh, n-1, n, 0 and 2^32-1 neighbourhoods for n in 1..64, powers of two +-1, and n near 2^31 and 2^32-1; random streams with truncations (source failure); shuffle_all enumerates every draw sequence for n<=6 (7 in thorough). Distinct by (op,args) hash; trivial: shuffles of 0 or 1 items.",
+		rule: "cases: sealed/signcrypted messages with random visibility patterns of 2..5 recipients checked for identities on the wire; (n, source byte stream) for the bounded draw and the shuffle (hooks VerifCsprngUint32n / VerifCsprngShuffle); boundary source values are constructed so that low = v*n mod 2^32 falls on thresh-1, thresh, n-1, n, 0 and 2^32-1 neighbourhoods for n in 1..64, powers of two +-1, and n near 2^31 and 2^32-1; random streams with truncations (source failure); shuffle_all enumerates every draw sequence for n<=6 (7 in thorough). Distinct by (op,args) hash; trivial: shuffles of 0 or 1 items.",
 		gen:  genC19,
 	}
 }
 
 func genC19(h *H) {
 	thorough := h.tier == "thorough"
+	// identity hiding on the wire: sealed and signcrypted messages with every visibility pattern of
+	// 2..5 recipients (the seal / sc_seal evaluators check that the sender key and hidden recipients'
+	// keys are absent from the bytes and each visible recipient is named exactly once)
+	nw := 40
+	if thorough {
+		nw = 600
+	}
+	for i := 0; i < nw; i++ {
+		nr := 2 + h.rng.Intn(4)
+		s := h.randSealSpec(nr, h.rng.Intn(1<<uint(nr)))
+		h.tag("wire-identities:seal")
+		h.Run(sealCase(s, [][]byte{h.rng.Bytes(h.rng.Intn(60))}, sealRng(h.rng, nr), i%2 == 0))
+		if i%2 == 0 {
+			sc := h.randScSpec(1+h.rng.Intn(3), h.rng.Intn(3))
+			h.tag("wire-identities:sc")
+			h.Run(scSealCase(sc, [][]byte{h.rng.Bytes(h.rng.Intn(60))}, sealRng(h.rng, 6), true))
+		}
+	}
 	ns := []uint32{}
 	for n := uint32(1); n <= 64; n++ {
 		ns = append(ns, n)
